@@ -36,7 +36,10 @@ import (
 //
 //	ok RL <n> (key C)... RS <n> (key C)... ML <n> (key addr C)... MS <n> (key addr C)...
 //	   Q <n> (r key w | m key addr w)... R <k> (key E)... W <dumpMem of the sparse layer>
-//	err                            Step returned an error (history ends)
+//	err                            Step returned an error: no instruction at the instruction pointer (history ends)
+//	err:access <addr> <w> Q <n> ... R <k> (key E)... W <dumpMem of the sparse layer>
+//	                               Step returned the error of an access that leaves the address space
+//	                               (history ends); the provider calls of the failed step and the state after it
 //	PANIC Q <n> ...                Step panicked (history ends)
 //	D <dumpState>
 
@@ -232,6 +235,12 @@ func opEmu(t *tokens) string {
 			s, err := emul.Step()
 			if err != nil {
 				isErr = true
+				if addr, w, ok := emulator.VerifAccessError(err); ok {
+					return strings.Join([]string{
+						fmt.Sprintf("err:access %d %d", uint64(addr), w),
+						semuFmtLog(prov.log), dumpRegs(emul.State.Regs), "W " + dumpMem(sparse),
+					}, " ")
+				}
 				return "err"
 			}
 			return strings.Join([]string{"ok",
